@@ -151,9 +151,9 @@ def run_case(ctx, rng, n, workers, ncons, n_pre, with_store, gated, settle, hold
         p.data_store = SqliteDataStore(p, database_name=db)
         orig_sync = p.data_store.sync_individual
 
-        def gated_sync(ind, orig=orig_sync):
+        def gated_sync(ind, *a, **k):
             gate.arrive(("s", idx_of.get(ind.id, -1)))
-            return orig(ind)
+            return orig_sync(ind, *a, **k)
         p.data_store.sync_individual = gated_sync
     algo = DummyAlgorithm(p)
     # some designs are already evaluated (serially, ungated) before the parallel batch
@@ -178,7 +178,7 @@ def run_case(ctx, rng, n, workers, ncons, n_pre, with_store, gated, settle, hold
         def maybe_hold(sql):
             if sql.lstrip().upper().startswith("INSERT INTO INDIVIDUALS") and hold["n"] < 3:
                 hold["n"] += 1
-                time.sleep(0.12)
+                time.sleep(0.2)
 
         class Cur:
             def __init__(s, c):
